@@ -13,7 +13,7 @@ def _dangling_key(reg):
     while x.parent is not None and any(c is x for c in x.parent.children):
         x = x.parent
     # x is the top of the detached piece: a true root, or a node that its (stale) parent no longer lists
-    if x.parent is None and type(x) is nodes.Element:
+    if x.parent is None and (type(x) is nodes.Element or isinstance(x, nodes.title)):
         # a directive nested-parsed its content into a scratch container and then rejected it (docutils' own tables do this)
         return "dangling:registered-node-not-in-tree:nested-parse-result-discarded"
     if x.parent is not None and isinstance(x, (nodes.topic, nodes.pending)) and ("contents" in x.get("classes", []) or isinstance(x, nodes.pending)):
@@ -63,7 +63,16 @@ def check_tree(doc, stage):
         if isinstance(n, nodes.Element):
             for i in n.get("ids", []):
                 if i in ids and ids[i] is not n:
-                    out.append(("ids:duplicate", f"id {i!r} on <{ids[i].tagname}> and <{n.tagname}>", n, ids[i]))
+                    def _in_toc(x):
+                        while x is not None:
+                            if isinstance(x, nodes.topic) and "contents" in x.get("classes", []):
+                                return True
+                            x = x.parent
+                        return False
+
+                    # docutils' Contents transform copies the children of every section title into the table of contents, ids included
+                    key = "ids:duplicate:toc-copy-of-title-content" if _in_toc(n) != _in_toc(ids[i]) else "ids:duplicate"
+                    out.append((key, f"id {i!r} on <{ids[i].tagname}> and <{n.tagname}>", n, ids[i]))
                 ids[i] = n
     # (registry agreement is docutils-internal - Node.replace_self moves ids without re-registering - and is only a diagnostic)
     diag = {"ids_not_registered": sum(1 for i in ids if doc.ids.get(i) is None), "ids_registry_mismatch": sum(1 for i, n in ids.items() if doc.ids.get(i) is not None and doc.ids.get(i) is not n)}
